@@ -17,7 +17,7 @@ func init() {
 	stats.Rule("C05", "rapid state machine as C04 on collapsing-lowest/highest stores with N in {1..2048} (small N over-weighted) and index spread 0.5N..20N; merge arguments of every kind and, for same-kind arguments, an independent bin limit (incl. wide argument into an empty/cleared receiver); after every step the observation must equal fold(M,N) of the exact unfolded content M, bins <= N, span <= N, total == total(M), allocated length <= N (hook); plus sketch-level cases on LogCollapsing{Lowest,Highest}DenseDDSketch checking alpha-accuracy of every quantile whose order statistics fall in retained bins. Non-trivial: at least one fold happened and at least one operation after it; distinct by hash of the operation log.")
 }
 
-var storeOpKinds = []string{"simple", "simple", "simple", "simple", "simple", "simple", "widen", "merge", "merge", "decmerge", "protomerge", "copy", "clear", "reweight", "reweight", "encdec", "encdouble", "proto", "protodouble"}
+var storeOpKinds = []string{"simple", "simple", "simple", "simple", "simple", "simple", "widen", "merge", "merge", "decmerge", "protomerge", "copy", "clear", "reweight", "reweight", "encdec", "encdouble", "proto", "protodouble", "vanish"}
 
 // storeMachine runs one generated history on kind and checks the invariant after every step.
 func storeMachine(t *rapid.T, prop string, kind gen.StoreKind) {
